@@ -19,6 +19,23 @@ Ran(f) == {f[x] : x \in DOMAIN f}
 
 Escalations(c) == {s \in Ran(c.sets) : s.inv /\ ~s.outv}
 
+\* Encodings whose proposal the validator does not gate (facts of the binary format, from the bulk-memory and
+\* reference-types proposals): an element segment whose flag is not 0, a data segment whose flag is not 0 and the
+\* data-count section did not exist in the MVP.  An input that uses none of them, and none of the operators of those
+\* proposals, must not acquire one.
+PostMvp == {"bulk", "reftypes", "multi_memory"}
+InputIsPlain(c) ==
+  /\ Ran(c.needs) \cap PostMvp = {}
+  /\ \A q \in DOMAIN c.in_elem_flags : c.in_elem_flags[q] = 0
+  /\ \A q \in DOMAIN c.in_data_flags : c.in_data_flags[q] = 0
+  /\ ~c.in_datacount
+EncodingEscalation(c) ==
+  IF ~InputIsPlain(c) THEN <<>>
+  ELSE IF \E q \in DOMAIN c.out_elem_flags : c.out_elem_flags[q] # 0 THEN <<"element-segment-flag", c.out_elem_flags>>
+  ELSE IF \E q \in DOMAIN c.out_data_flags : c.out_data_flags[q] # 0 THEN <<"data-segment-flag", c.out_data_flags>>
+  ELSE IF c.out_datacount THEN <<"data-count-section">>
+  ELSE <<>>
+
 Verdict(c) ==
   IF c.outcome # "ok" THEN <<"outcome", c.outcome>>
   \* an output that is invalid even with every proposal enabled is not an escalation (it is C02's violation)
@@ -26,6 +43,7 @@ Verdict(c) ==
   ELSE IF Escalations(c) # {} THEN
        LET s == CHOOSE x \in Escalations(c) : \A y \in Escalations(c) : Len(x.removed) <= Len(y.removed) IN
        <<"feature-escalation", s.removed, s.why, c.needs>>
+  ELSE IF EncodingEscalation(c) # <<>> THEN <<"post-mvp-encoding-introduced">> \o EncodingEscalation(c)
   ELSE <<"ok">>
 
 Judge(c) == LET v == Verdict(c) IN
